@@ -221,6 +221,11 @@ void em_freetemp_stub(JanetcRegisterAllocator *ra, int32_t reg, JanetcRegisterTe
         for (int k = 0; k < EM_OWN; k++) if (k < em_nown && em_own[k] == reg) em_own_live[k] = 0;
     }
 }
+/* janetc_regalloc_free: frees exactly its argument; precondition: a register this call took (never a live one) */
+void em_free_stub(JanetcRegisterAllocator *ra, int32_t reg) {
+    __CPROVER_assert(em_owned_live(reg), "comp.emit: only a register taken from the allocator by this call is freed (never a live one)");
+    for (int k = 0; k < EM_OWN; k++) if (k < em_nown && em_own[k] == reg) em_own_live[k] = 0;
+}
 /* janetc_regalloc_1: any register that is not live and not a reserved temporary */
 int32_t em_alloc1_stub(JanetcRegisterAllocator *ra) {
     int32_t r = nd_i32();
@@ -262,6 +267,12 @@ static void em_init(int nops) {
 #define SH_SSX 3    /* op | A | B | C = immediate    */
 #define SH_SSS 4    /* op | A | B | C                */
 
+/* clause (d) for registers, in a function of its own so that the obligation name em_check_release.assertion.1 is stable */
+static void em_check_release(void) {
+    int leaked = 0;
+    for (int k = 0; k < EM_OWN; k++) if (k < em_nown && em_own_live[k]) leaked = 1;
+    __CPROVER_assert(!leaked, "comp.emit.release: every register taken from the allocator during the call (temporaries, janetc_allocfar spills) is given back before the emitter returns");
+}
 static void em_frame_checks(void) {
     __CPROVER_assert(!em_bad_instr, "comp.emit: only register-transfer instructions (loads, moves, upvalue and reference-cell accesses) surround the requested one");
     __CPROVER_assert(em_eq(em_read(em_glive), em_mk(T_REG0, (uint64_t)(uint32_t) em_glive)) ||
@@ -271,8 +282,7 @@ static void em_frame_checks(void) {
     __CPROVER_assert(em_cellw_n == ((em_wr && (em_s[0].flags & JANET_SLOT_REF)) ? 1 : 0), "comp.emit: no reference cell other than the destination is written");
     __CPROVER_assert(em_held == 0, "comp.emit: every temporary tag is released");
 #ifdef EM_CHECK_RELEASE
-    for (int k = 0; k < EM_OWN; k++)
-        __CPROVER_assert(!(k < em_nown && em_own_live[k]), "comp.emit: every register taken from the allocator is given back");
+    em_check_release();
 #endif
 }
 
@@ -415,12 +425,40 @@ void h_copy(void) {
     __CPROVER_assert(em_cellw_n == 0 || (em_cellw_n == 1 && (dest.flags & JANET_SLOT_REF)), "comp.emit: no reference cell other than the destination is written");
     __CPROVER_assert(em_held == 0, "comp.emit: every temporary tag is released");
 #ifdef EM_CHECK_RELEASE
-    for (int k = 0; k < EM_OWN; k++)
-        __CPROVER_assert(!(k < em_nown && em_own_live[k]), "comp.emit: every register taken from the allocator is given back");
+    em_check_release();
 #endif
     if (em_is_local(dest) && dest.index > 0xFF && em_is_local(src) && src.index > 0xFF) REACH("copy: far to far through a temporary");
     if ((dest.flags & JANET_SLOT_REF) && em_is_upvalue(src)) REACH("copy: upvalue to reference cell");
     REACH("copy: normal return");
+}
+
+/* ------------------------------------------------------------------ upvalues beyond the 8-bit fields (-DEM_MAXUP=0xFFFF): KNOWN FINDING
+ * JOP_LOAD_UPVALUE / JOP_SET_UPVALUE address environment and register with 8 bits each (vm.c B, C). A captured local in a
+ * register above 255, or the 257th captured environment, must therefore still be read / written correctly by some other
+ * sequence, or be refused with a compile error. The two obligations live in functions of their own so that their names
+ * (em_upvalue_range_read.assertion.1, em_upvalue_range_write.assertion.1) do not depend on the rest of the harness. */
+static void em_upvalue_range_read(JanetSlot dest, emval want) {
+    __CPROVER_assert(em_errors > 0 || em_eq(em_slotval(dest), want), "comp.emit.upvalue-range: reading an upvalue whose register or environment number exceeds 255 yields that upvalue's value, or a compile error is reported (LOAD_UPVALUE has 8-bit fields)");
+}
+static void em_upvalue_range_write(JanetSlot dest, emval want) {
+    __CPROVER_assert(em_errors > 0 || (em_upw_n == 1 && em_upw_e == (uint32_t) dest.envindex && em_upw_i == (uint32_t) dest.index && em_eq(em_upw_v, want)),
+                     "comp.emit.upvalue-range: writing an upvalue whose register or environment number exceeds 255 writes that upvalue, or a compile error is reported (SET_UPVALUE has 8-bit fields)");
+}
+void h_upvalue_range(void) {
+    em_init(2); em_wr = 0;
+    /* one side is an upvalue (any register 0..0xFFFF of any environment 0..0xFFFF), the other a near local */
+    JanetSlot up = em_s[0], loc = em_s[1];
+    __CPROVER_assume(em_is_upvalue(up) && em_is_local(loc) && loc.index <= 0xEF);
+    int to_upvalue = nd_int() & 1;
+    emval want = to_upvalue ? em_sv0[1] : em_sv0[0];
+    if (to_upvalue) janetc_copy(&em_c, up, loc); else janetc_copy(&em_c, loc, up);
+    int32_t n = janet_v_count(em_c.buffer);
+    __CPROVER_assert(n - EM_PRE <= EM_MAXSEQ, "harness: sequence bound suffices");
+    for (int k = 0; k < EM_MAXSEQ; k++) if (EM_PRE + k < n) em_exec(k, em_c.buffer[EM_PRE + k]);
+    if (to_upvalue) { em_upvalue_range_write(up, want); REACH("upvalue-range: written"); }
+    else { em_upvalue_range_read(loc, want); REACH("upvalue-range: read"); }
+    if (up.index > 0xFF) REACH("upvalue-range: register beyond 255");
+    if (up.envindex > 0xFF) REACH("upvalue-range: environment beyond 255");
 }
 
 /* ------------------------------------------------------------------ the helpers one by one */
@@ -506,8 +544,7 @@ void h_regfar(void) {
     janetc_free_regnear(&em_c, em_s[0], r, (JanetcRegisterTemp) tag);
     __CPROVER_assert(em_held == 0, "comp.emit: every temporary tag is released");
 #ifdef EM_CHECK_RELEASE
-    for (int k = 0; k < EM_OWN; k++)
-        __CPROVER_assert(!(k < em_nown && em_own_live[k]), "comp.emit: every register taken from the allocator is given back");
+    em_check_release();
 #endif
     if (r > 0xFF && !em_is_local(em_s[0])) REACH("regfar: spilled to a far register");
     REACH("regfar: normal return");
@@ -611,11 +648,12 @@ void h_temp_roundtrip(void) {
     int32_t tags0 = ra.regtemps;
     int32_t g = nd_i32();                                                                /* ghost: any register */
     __CPROVER_assume(g >= 0 && g < RT_CAP * 32);
-    int before = (g >> 5) < ra.count && ((rt_chunks[g >> 5] >> (g & 31)) & 1u);
+    /* abstract set of the regalloc.* units: the reserved temporaries 0xF0..0xFF are members from the start (chunk 7 is born with them) */
+    int before = (g >= 0xF0 && g <= 0xFF) || ((g >> 5) < ra.count && ((rt_chunks[g >> 5] >> (g & 31)) & 1u));
     int32_t reg = janetc_regalloc_temp(&ra, (JanetcRegisterTemp) tag);
     __CPROVER_assert(reg >= 0 && reg <= 0xFF, "comp.regalloc: a temporary fits 8 bits");
     janetc_regalloc_freetemp(&ra, reg, (JanetcRegisterTemp) tag);
-    int after = (g >> 5) < ra.count && ((rt_chunks[g >> 5] >> (g & 31)) & 1u);
+    int after = (g >= 0xF0 && g <= 0xFF) || ((g >> 5) < ra.count && ((rt_chunks[g >> 5] >> (g & 31)) & 1u));
     __CPROVER_assert(ra.regtemps == tags0, "comp.regalloc: the tag is free again");
     __CPROVER_assert(after == before, "comp.regalloc: taking and releasing a temporary leaves the set of allocated registers as it was (no register is consumed)");
     if (reg >= 0xF0) REACH("roundtrip: reserved temporary (near registers exhausted)");
